@@ -1,7 +1,7 @@
 import re
 import string
 import functools
-from typing import Union
+from typing import Any, Union
 
 from flamapy.core.models.ast import ASTOperation
 from flamapy.core.transformations import ModelToText
@@ -95,14 +95,24 @@ class UVLWriter(ModelToText):
         for attribute in feature.get_attributes():
             attribute_str = safename(attribute.name)
             if attribute.default_value is not None:
-                if isinstance(attribute.default_value, str):
-                    attribute_str += f" '{attribute.default_value}'"
-                elif isinstance(attribute.default_value, bool):
-                    attribute_str += f" {str(attribute.default_value).lower()}"
-                else:
-                    attribute_str += f" {attribute.default_value}"
+                attribute_str += " " + cls.serialize_value(attribute.default_value)
             attributes.append(attribute_str)
         return f'{{{", ".join(attributes)}}}' if attributes else ""
+
+    @classmethod
+    def serialize_value(cls, value: Any) -> str:
+        """UVL text of an attribute value (nested lists and maps included)."""
+        if isinstance(value, str):
+            return f"'{value}'"
+        if isinstance(value, bool):
+            return str(value).lower()
+        if isinstance(value, list):
+            return "[" + ", ".join(cls.serialize_value(v) for v in value) + "]"
+        if isinstance(value, dict):
+            entries = [safename(str(key)) if val is None else f"{safename(str(key))} {cls.serialize_value(val)}"
+                       for key, val in value.items()]
+            return "{" + ", ".join(entries) + "}"
+        return str(value)
 
     @staticmethod
     def serialize_relation(rel: Relation) -> str:
